@@ -586,7 +586,7 @@ pub fn shape_space(args: &Args) -> (Vec<Shape>, usize, serde_json::Value) {
 
 // ---------------------------------------------------------------- types whose serde form depends on is_human_readable
 
-mod hr {
+pub mod hr {
     use serde::{Deserialize, Deserializer, Serialize, Serializer};
     use std::collections::BTreeMap;
     use std::net::IpAddr;
